@@ -92,6 +92,33 @@ Theorem C15_commit_keyspend_only :
 Proof. exact commit_keyspend_only. Qed.
 Print Assumptions C15_commit_keyspend_only.
 
+(* to_tap_tree (the conversion to rust-bitcoin's TapTree used by the PSBT output update) returns
+   the described tree without panic *)
+Theorem C15_to_tap_tree :
+  forall (leaf hash : Type) (leafH : leaf -> hash) (branchH : hash -> hash -> hash)
+         (dl : dlist leaf) (t : tree leaf),
+  tree_of_depths leaf dl = Some t -> height leaf t <= 128 ->
+  exists ns, nodes_from_tap_tree leaf hash leafH branchH dl = TOk ns /\
+             to_tap_tree leaf hash ns = TOk (Some t).
+Proof. exact to_tap_tree_ok. Qed.
+Print Assumptions C15_to_tap_tree.
+
+(* address(network) and script_pubkey are those of tweak internal (root t) *)
+Theorem C15_address :
+  forall (leaf hash : Type) (leafH : leaf -> hash) (branchH : hash -> hash -> hash)
+         (key okey parity : Type) (tweak : key -> option hash -> okey * parity)
+         (network address spk : Type) (addr_of : network -> okey -> address) (spk_of : okey -> spk)
+         (ik : key) (dl : dlist leaf) (t : tree leaf) (n : network),
+  tree_of_depths leaf dl = Some t ->
+  exists si,
+    from_tr leaf hash leafH branchH key okey parity tweak ik (Some dl) = TOk si /\
+    tr_address leaf hash key okey parity network address addr_of n si
+      = addr_of n (fst (tweak ik (Some (root leaf hash leafH branchH t)))) /\
+    tr_script_pubkey leaf hash key okey parity spk spk_of si
+      = spk_of (fst (tweak ik (Some (root leaf hash leafH branchH t)))).
+Proof. exact address_of_output_key. Qed.
+Print Assumptions C15_address.
+
 (* leaves, order and depths are invariant under key translation and under print-then-parse of
    the brace syntax (spend-info iteration: last conjunct of C15_algo_paths) *)
 Theorem C15_preserved : forall (leaf : Type),
